@@ -69,13 +69,17 @@ where
 {
     let mut masks = [0; 256];
 
-    let mut bit = 1;
+    let mut bit: u64 = 1;
+    // bit of the last pattern symbol; tracked separately because `bit` leaves
+    // the word after the 64th symbol
+    let mut accept = 0;
     for c in pattern {
         masks[*c.borrow() as usize] |= bit;
-        bit *= 2;
+        accept = bit;
+        bit = bit.wrapping_mul(2);
     }
 
-    (masks, bit / 2)
+    (masks, accept)
 }
 
 /// Iterator over start positions of matches.
